@@ -1,0 +1,48 @@
+//go:build verif
+
+// Contracts for the deductive verifier in /verif (govc). This file contains no code: with the
+// build tag off it is not part of the package, with it on it adds nothing to the build.
+package utils
+
+//@ import big "math/big"
+//@ import sdkmath "cosmossdk.io/math"
+//@ import ethtypes "github.com/ethereum/go-ethereum/core/types"
+
+//@ func add(a, b *big.Int) *big.Int
+//@   requires a != nil && b != nil
+//@   modifies nothing
+//@   ensures result != nil && fresh(result) && bigval[result] == bigval[a] + bigval[b]
+//@   panics never
+
+//@ func mul(a, b *big.Int) *big.Int
+//@   requires a != nil && b != nil
+//@   modifies nothing
+//@   ensures result != nil && fresh(result) && bigval[result] == bigval[a] * bigval[b]
+//@   panics never
+
+// The price a transaction declares it is willing to pay (fee cap for dynamic-fee txs).
+//@ func EthTxGasPrice(tx *ethtypes.Transaction) *big.Int
+//@   requires tx != nil
+//@   modifies nothing
+//@   ensures[C05.declared_price,C07.declared_price] result != nil && bigval[result] == txFeeCap(tx)
+//@   panics never
+
+//@ func EthTxFee(tx *ethtypes.Transaction) *big.Int
+//@   requires tx != nil
+//@   modifies nothing
+//@   ensures[C05.declared_fee,C07.declared_fee] result != nil && bigval[result] == txFeeCap(tx) * txGas(tx)
+//@   panics never
+
+// Effective price = min(tip cap + base fee, fee cap) — the same number go-ethereum's AsMessage computes and the
+// refund uses; for legacy / access-list txs tip cap == fee cap == gas price, so it is the gas price.
+//@ func EthTxEffectiveGasPrice(tx *ethtypes.Transaction, baseFee sdkmath.Int) *big.Int
+//@   requires tx != nil && !inil(baseFee) && iv(baseFee) >= 0
+//@   modifies nothing
+//@   ensures[C05.eff_price,C04.eff_price,C09.eff_price] result != nil && bigval[result] == min(txTipCap(tx) + iv(baseFee), txFeeCap(tx))
+//@   panics never
+
+//@ func EthTxEffectiveFee(tx *ethtypes.Transaction, baseFee sdkmath.Int) *big.Int
+//@   requires tx != nil && !inil(baseFee) && iv(baseFee) >= 0
+//@   modifies nothing
+//@   ensures[C05.eff_fee,C04.eff_fee] result != nil && bigval[result] == min(txTipCap(tx) + iv(baseFee), txFeeCap(tx)) * txGas(tx)
+//@   panics never
